@@ -42,6 +42,7 @@ ASSUMPTIONS = [
     "a registration gives either no address_filters/group_addresses argument at all (None) or non-empty lists; explicit empty lists are not generated (the statement is silent on them)",
     "registrations change only while the queue is idle (the history joins the queue before register/unregister); with self-unregistering callbacks the queue is joined after every telegram",
     "a callback unregistered or registered by another callback while a telegram is being dispatched is not judged for that telegram; every callback that stays registered is",
+    "destination 0 (broadcast, handled by management, not a group telegram) is not generated",
     "raising callbacks raise Exception subclasses (ValueError, RuntimeError, xknx ConversionError), not BaseException",
     "'processed telegram' = telegram taken from xknx.telegrams whose send (if outgoing to a group address) succeeded; the stub interface confirms every frame here, failing sends belong to C33",
 ]
@@ -65,10 +66,10 @@ def ref_addr_match(spec, dst, nl: int) -> bool:
     if f is None and g is None:
         return True
     for pat in f or ():
-        if "glob" in pat:
-            if isinstance(dst, str) and R.glob_match(pat["glob"], dst[2:]):
+        if isinstance(pat, str):  # internal glob (without the 'i-' prefix)
+            if isinstance(dst, str) and R.glob_match(pat, dst[2:]):
                 return True
-        elif isinstance(dst, int) and R.match(pat["levels"], dst):
+        elif isinstance(dst, int) and R.match(pat, dst):  # structured pattern: list of levels
             return True
     for a in g or ():
         if a == dst and isinstance(a, str) == isinstance(dst, str):
@@ -84,11 +85,11 @@ def ref_called(spec, tg, nl: int) -> bool:
 
 def selftest(ctx) -> None:
     R.selftest()
-    p3 = {"levels": [[["n", 1]], [["*"]], [["r", 2, 5]]]}
+    p3 = [[["n", 1]], [["*"]], [["r", 2, 5]]]
     assert ref_addr_match({"f": [p3]}, R.join((1, 7, 3), 3), 3)
     assert not ref_addr_match({"f": [p3]}, R.join((1, 7, 6), 3), 3)
     assert not ref_addr_match({"f": [p3]}, "i-test", 3)
-    assert ref_addr_match({"f": [{"glob": "t?st"}]}, "i-test", 3) and not ref_addr_match({"f": [{"glob": "t?st"}]}, "i-tst", 3)
+    assert ref_addr_match({"f": ["t?st"]}, "i-test", 3) and not ref_addr_match({"f": ["t?st"]}, "i-tst", 3)
     assert ref_addr_match({"g": [5, "i-a"]}, "i-a", 3) and ref_addr_match({"g": [5, "i-a"]}, 5, 3) and not ref_addr_match({"g": [5]}, 6, 3)
     assert ref_addr_match({}, 7, 3) and ref_addr_match({"f": None, "g": None}, "i-x", 3)
     assert not ref_called({"out": False}, {"dir": "out", "dst": 7}, 3) and ref_called({"out": True}, {"dir": "out", "dst": 7}, 3)
@@ -119,9 +120,12 @@ def _mk_payload(apci: str):
     return GroupValueRead()
 
 
-def model(case):
-    """Reference: per telegram the set of callbacks that must be called, the set that must not,
-    and those not judged (registration changed while the telegram was dispatched)."""
+def model(case, obs=None):
+    """Reference: per telegram the set of callbacks that must be called and the set registered at that time.
+
+    A self-unregistering ("once") callback leaves the registered set after the telegram for which it
+    was actually invoked (`obs`: Counter of observed (callback, telegram) calls; None = assume it ran
+    when it should), so that one missed call is reported once and not again as a later 'unexpected call'."""
     nl = case["nl"]
     active: dict[int, dict] = {}
     specs: list[dict] = []
@@ -139,7 +143,7 @@ def model(case):
         elif op[0] == "tg":
             tg = op[1]
             exp = {k for k, s in active.items() if ref_called(s, tg, nl)}
-            gone = {k for k in exp if specs[k].get("once")}
+            gone = {k for k in exp if specs[k].get("once") and (obs is None or obs.get((k, len(tgs)), 0) > 0)}
             tgs.append(tg)
             must.append(exp)
             unjudged.append(set())
@@ -213,7 +217,7 @@ def execute(case):
                 spec = op[1]
                 filters = None
                 if spec.get("f") is not None:
-                    filters = [AddressFilter("i-" + p["glob"]) if "glob" in p else AddressFilter(R.render(p["levels"])) for p in spec["f"]]
+                    filters = [AddressFilter("i-" + p) if isinstance(p, str) else AddressFilter(R.render(p)) for p in spec["f"]]
                 gas = None if spec.get("g") is None else [_mk_addr(a) for a in spec["g"]]
                 handles[nreg] = tq.register_telegram_received_cb(make_cb(nreg, spec), address_filters=filters, group_addresses=gas, match_for_outgoing=bool(spec.get("out")))
                 nreg += 1
@@ -270,20 +274,17 @@ def _match_kind(spec) -> str:
 def judge(ctx, case, calls, dev_calls, errors, escaped) -> bool:
     """Returns True when the case was non-trivial."""
     nl = case["nl"]
-    specs, tgs, must, _unjudged, active_at = model(case)
+    obs = Counter(calls)
+    specs, tgs, must, _unjudged, active_at = model(case, obs)
     for e in errors:
         ctx.fail(f"C34:queue-{e}", case, "xknx.telegrams.join() / stop() did not return within 120 virtual seconds")
     for e in escaped:
         ctx.fail(f"C34:escaped:{type(e['exception']).__name__}", case, e["repr"] + " " + e["message"])
     if errors:
         return False
-    obs = Counter(calls)
-    order = {}
-    for pos, (k, i) in enumerate(calls):
-        order.setdefault((k, i), pos)
     for i, tg in enumerate(tgs):
         raisers = sorted(k for k in must[i] if specs[k].get("exc"))
-        oncers = sorted(k for k in must[i] if specs[k].get("once"))
+        oncers = sorted(k for k in must[i] if specs[k].get("once") and obs.get((k, i), 0) > 0)
         for k, spec in enumerate(specs):
             n = obs.get((k, i), 0)
             exp = 1 if k in must[i] else 0
@@ -351,89 +352,101 @@ def check_case(ctx, case) -> bool:
 
 
 # --------------------------------------------------------------------------- strategies
-def _near_item(v: int, m: int):
-    d = st.integers(0, 2)
-    return st.one_of(
-        st.just(["n", v]),
-        st.just(["n", v]),
-        st.tuples(d, d).map(lambda p: ["r", max(v - p[0], 0), min(v + p[1], m)]),
-        st.tuples(d, d).map(lambda p: ["r", min(v + p[1], m), max(v - p[0], 0)]),  # reversed
-        d.map(lambda x: ["lo", min(v + x, m)]),
-        d.map(lambda x: ["hi", max(v - x, 0)]),
-        d.map(lambda x: ["lo", max(v - 1 - x, 0)]),  # just misses
-        d.map(lambda x: ["hi", min(v + 1 + x, m)]),  # just misses
-        st.just(["*"]),
-        st.integers(0, m).map(lambda x: ["n", x]),
-    )
+# (drawn imperatively from integer primitives: nested flatmap/one_of strategies cost ~30 ms per case)
+_I = st.integers
 
 
-def _pattern_near(vals, nl: int):
+def _pick(draw, seq):
+    return seq[draw(_I(0, len(seq) - 1))]
+
+
+def _near_item(draw, v: int, m: int):
+    k = draw(_I(0, 10))
+    d1, d2 = draw(_I(0, 2)), draw(_I(0, 2))
+    if k <= 1:
+        return ["n", v]
+    if k == 2:
+        return ["r", max(v - d1, 0), min(v + d2, m)]
+    if k == 3:
+        return ["r", min(v + d2, m), max(v - d1, 0)]  # reversed
+    if k == 4:
+        return ["lo", min(v + d1, m)]
+    if k == 5:
+        return ["hi", max(v - d1, 0)]
+    if k == 6:
+        return ["lo", max(v - 1 - d1, 0)]  # just misses (unless clipped)
+    if k == 7:
+        return ["hi", min(v + 1 + d1, m)]  # just misses (unless clipped)
+    if k == 8:
+        return ["*"]
+    if k == 9:
+        return ["n", min(v + 1, m)]
+    return ["n", draw(_I(0, m))]
+
+
+def _pattern(draw, pool_vals, nl: int):
+    if draw(_I(0, 3)) == 0:
+        return _pick(draw, GLOBS)
+    vals = _pick(draw, pool_vals)
     maxes = R.LEVEL_MAX[nl]
-    return st.tuples(*[st.lists(_near_item(v, m), min_size=1, max_size=2) for v, m in zip(vals, maxes)]).map(lambda lv: {"levels": list(lv)})
+    return [[_near_item(draw, v, m) for _ in range(draw(_I(1, 2)))] for v, m in zip(vals, maxes)]
+
+
+def _dst(draw, pool, names):
+    k = draw(_I(0, 8))
+    if k <= 2:
+        a = _pick(draw, pool)
+    elif k == 3:
+        a = _pick(draw, pool)
+        a = _pick(draw, [max(a - 1, 0), min(a + 1, 65535), a ^ 0x100, a ^ 0x800])
+    elif k == 4:
+        a = draw(_I(1, 65535))
+    elif k <= 6:
+        return _pick(draw, names)
+    else:
+        return "i-" + _pick(draw, NAMES)
+    return a or 1  # 0 is the broadcast address: not a group telegram, never reaches the queue
+
+
+def _reg(draw, pool, pool_vals, names, nl):
+    f = None if draw(_I(0, 2)) == 0 else [_pattern(draw, pool_vals, nl) for _ in range(draw(_I(1, 3)))]
+    g = None if draw(_I(0, 2)) <= 1 else [_dst(draw, pool, names) for _ in range(draw(_I(1, 3)))]
+    return {
+        "f": f,
+        "g": g,
+        "out": bool(draw(_I(0, 1))),
+        "exc": _pick(draw, [None, None, *EXCS]) if draw(_I(0, 1)) else None,
+        "once": draw(_I(0, 7)) == 0,
+    }
+
+
+def _tg(draw, pool, names):
+    dst = _dst(draw, pool, names)
+    dirn = _pick(draw, ["in", "out", "ind", "out"])
+    if isinstance(dst, str) and dirn == "ind":
+        dirn = "in"  # internal addresses never travel as cEMI
+    return {"dst": dst, "dir": dirn, "apci": _pick(draw, ["w0", "w1", "w1", "wa", "r0", "r1", "rd"])}
 
 
 @st.composite
 def cases(draw):
-    nl = draw(st.sampled_from([3, 3, 2, 1]))
+    nl = _pick(draw, [3, 3, 2, 1])
     maxes = R.LEVEL_MAX[nl]
-    npool = draw(st.integers(2, 4))
-    pool_vals = [tuple(draw(st.integers(0, m)) for m in maxes) for _ in range(npool)]
-    pool = [R.join(v, nl) for v in pool_vals]
-    names = ["i-" + n for n in draw(st.lists(st.sampled_from(NAMES), min_size=1, max_size=3, unique=True))]
-    dst = st.one_of(
-        st.sampled_from(pool),
-        st.sampled_from(pool),
-        st.sampled_from(pool),
-        st.sampled_from(pool).flatmap(lambda a: st.sampled_from([max(a - 1, 0), min(a + 1, 65535), a ^ 0x100, a ^ 0x800])),
-        st.integers(0, 65535),
-        st.sampled_from(names),
-        st.sampled_from(names),
-        st.sampled_from(["i-" + n for n in NAMES]),
-    )
-    pattern = st.one_of(
-        st.sampled_from(pool_vals).flatmap(lambda v: _pattern_near(v, nl)),
-        st.sampled_from(pool_vals).flatmap(lambda v: _pattern_near(v, nl)),
-        st.sampled_from(GLOBS).map(lambda g: {"glob": g}),
-    )
-    reg = st.fixed_dictionaries(
-        {
-            "f": st.one_of(st.none(), st.lists(pattern, min_size=1, max_size=3)),
-            "g": st.one_of(st.none(), st.none(), st.lists(dst, min_size=1, max_size=3)),
-            "out": st.booleans(),
-            "exc": st.one_of(st.none(), st.none(), st.sampled_from(EXCS)),
-            "once": st.sampled_from([False] * 7 + [True]),
-        }
-    )
-    tg = st.fixed_dictionaries(
-        {
-            "dst": dst,
-            "dir": st.sampled_from(["in", "out", "ind", "out"]),
-            "apci": st.sampled_from(["w0", "w1", "w1", "wa", "r0", "r1", "rd"]),
-        }
-    )
-
-    def fix(t):
-        if isinstance(t["dst"], str) and t["dir"] == "ind":
-            return {**t, "dir": "in"}  # internal addresses never travel as cEMI
-        return t
-
-    ops = [["reg", draw(reg)] for _ in range(draw(st.integers(1, 5)))]
-    tail = draw(
-        st.lists(
-            st.one_of(
-                tg.map(fix).map(lambda t: ["tg", t]),
-                tg.map(fix).map(lambda t: ["tg", t]),
-                tg.map(fix).map(lambda t: ["tg", t]),
-                tg.map(fix).map(lambda t: ["tg", t]),
-                reg.map(lambda r: ["reg", r]),
-                st.integers(0, 7).map(lambda k: ["unreg", k]),
-            ),
-            min_size=1,
-            max_size=12,
-        )
-    )
-    dev = draw(st.one_of(st.none(), st.sampled_from([a for a in pool if a != 0] or [1]), st.sampled_from(names)))
-    return {"nl": nl, "dev": dev, "ops": ops + tail}
+    pool_vals = [tuple(draw(_I(0, m)) for m in maxes) for _ in range(draw(_I(2, 4)))]
+    pool = [R.join(v, nl) or 1 for v in pool_vals]
+    names = sorted({"i-" + _pick(draw, NAMES) for _ in range(draw(_I(1, 3)))})
+    ops = [["reg", _reg(draw, pool, pool_vals, names, nl)] for _ in range(draw(_I(1, 5)))]
+    for _ in range(draw(_I(1, 12))):
+        k = draw(_I(0, 5))
+        if k <= 3:
+            ops.append(["tg", _tg(draw, pool, names)])
+        elif k == 4:
+            ops.append(["reg", _reg(draw, pool, pool_vals, names, nl)])
+        else:
+            ops.append(["unreg", draw(_I(0, 7))])
+    k = draw(_I(0, 2))
+    dev = None if k == 0 else (_pick(draw, pool) if k == 1 else _pick(draw, names))
+    return {"nl": nl, "dev": dev, "ops": ops}
 
 
 def _labels(case):
@@ -474,7 +487,7 @@ FIXED = [
     # three match-all callbacks, the middle one raising, plus a Switch (the scenario of the unit test, with a device)
     {"nl": 3, "dev": 2563, "ops": [["reg", {"f": None, "g": None, "out": False, "exc": None}], ["reg", {"f": None, "g": None, "out": False, "exc": "ValueError"}], ["reg", {"f": None, "g": None, "out": True, "exc": None}], ["tg", {"dst": 2563, "dir": "in", "apci": "w1"}], ["tg", {"dst": 2563, "dir": "out", "apci": "w0"}]]},
     # documented filter examples
-    {"nl": 3, "dev": None, "ops": [["reg", {"f": [{"levels": [[["n", 1]], [["*"]], [["r", 2, 5]]]}], "g": None, "out": True, "exc": None}], ["reg", {"f": [{"glob": "t?st"}], "g": [2563], "out": False, "exc": None}], ["tg", {"dst": 2050, "dir": "ind", "apci": "w1"}], ["tg", {"dst": 2563, "dir": "out", "apci": "rd"}], ["tg", {"dst": "i-test", "dir": "out", "apci": "w1"}], ["tg", {"dst": "i-test", "dir": "in", "apci": "r1"}]]},
+    {"nl": 3, "dev": None, "ops": [["reg", {"f": [[[["n", 1]], [["*"]], [["r", 2, 5]]]], "g": None, "out": True, "exc": None}], ["reg", {"f": ["t?st"], "g": [2563], "out": False, "exc": None}], ["tg", {"dst": 2050, "dir": "ind", "apci": "w1"}], ["tg", {"dst": 2563, "dir": "out", "apci": "rd"}], ["tg", {"dst": "i-test", "dir": "out", "apci": "w1"}], ["tg", {"dst": "i-test", "dir": "in", "apci": "r1"}]]},
 ]
 
 
